@@ -5,6 +5,8 @@ pub mod c01;
 pub mod c02;
 pub mod c03;
 pub mod c04;
+pub mod c17;
+pub mod damage;
 
 use crate::harness::{Cfg, RunResult, Tier};
 use crate::simfs::{Benign, IoFault};
@@ -27,9 +29,10 @@ pub enum Body {
     C03(c03::C03Doc),
     C01(c01::C01Doc),
     C02(c02::C02Doc),
+    C17(c17::C17Doc),
 }
 
-pub const PROPS: [&str; 4] = ["C01", "C02", "C03", "C04"];
+pub const PROPS: [&str; 5] = ["C01", "C02", "C03", "C04", "C17"];
 
 pub fn generate(prop: &str, seed: u64, tier: Tier) -> Doc {
     match prop {
@@ -37,6 +40,7 @@ pub fn generate(prop: &str, seed: u64, tier: Tier) -> Doc {
         "C03" => c03::generate(seed, tier),
         "C01" => c01::generate(seed, tier),
         "C02" => c02::generate(seed, tier),
+        "C17" => c17::generate(seed, tier),
         _ => panic!("HARNESS: unknown property {}", prop),
     }
 }
@@ -48,6 +52,7 @@ pub fn directed(prop: &str) -> Vec<Doc> {
         "C03" => c03::directed(),
         "C01" => c01::directed(),
         "C02" => c02::directed(),
+        "C17" => c17::directed(),
         _ => vec![],
     }
 }
@@ -58,6 +63,7 @@ pub fn run_doc(doc: &Doc, trace: bool) -> RunResult {
         Body::C03(b) => c03::run(doc, b, trace),
         Body::C01(b) => c01::run(doc, b, trace),
         Body::C02(b) => c02::run(doc, b, trace),
+        Body::C17(b) => c17::run(doc, b, trace),
     }
 }
 
@@ -115,6 +121,13 @@ pub fn shrink_candidates(doc: &Doc) -> Vec<Doc> {
                 out.push(d);
             }
         }
+        Body::C17(b) => {
+            for nb in c17::shrink(b) {
+                let mut d = doc.clone();
+                d.body = Body::C17(nb);
+                out.push(d);
+            }
+        }
         Body::C03(b) => {
             for nb in c03::shrink(b) {
                 if !c03::well_formed(&nb) {
@@ -135,6 +148,7 @@ pub fn probe_names(prop: &str) -> &'static [&'static str] {
         "C03" => &c03::PROBES,
         "C01" => &c01::PROBES,
         "C02" => &c02::PROBES,
+        "C17" => &c17::PROBES,
         _ => &[],
     }
 }
@@ -146,6 +160,7 @@ pub fn mandatory_probes(prop: &str) -> Vec<usize> {
         "C03" => (0..c03::PROBES.len()).collect(),
         "C01" => (0..c01::PROBES.len()).collect(),
         "C02" => (0..c02::PROBES.len()).collect(),
+        "C17" => (0..c17::PROBES.len()).collect(),
         _ => vec![],
     }
 }
